@@ -531,6 +531,8 @@ def run(ctx):
         few_kinds = history or sl.startswith("opts") or sl == "sys_q"
 
         acts = [a for a in ACTIONS if not few_kinds or a in ("GenSystem", "GenNoPerturb", "GenBreakQuotient", "Residual")]
+        if sl == "hist_q":
+            acts = ["GenSystem", "GenNoPerturb"]
         res = ctx.tlc("Equilibria_MC", "Equilibria_MC_%s.cfg" % sl,
                       require_actions=(acts + (["Again"] if history else [])) if sl == "hist_q" else (),
                       require_cases=800, timeout=1500)
